@@ -46,6 +46,8 @@ let () =
       let rep = next_list a next_z in
       let e = next_z a in
       let ops = parse_hops a in
+      if ver = "v3" && kind = 0 && small_int_of_z (test_number_status raw rep) = 2 then ok_v ["ERR"] ["error"]
+      else
       let ans = run_history (ver_z ver) (z_of_int kind) raw rep e ops in
-      ok_v (List.map zs ans) (hist_tags args)))
-    ["C04"; "C07"; "C17"]
+      ok_v (List.map zs ans) (hist_tags args @ (if kind = 1 then ["generator"] else []))))
+    ["C04"; "C07"; "C17"; "C13"; "C06"; "C14"]
